@@ -8,7 +8,7 @@ use crate::ctx::{guarded, show, Ctx};
 use crate::obs::*;
 use crate::refmodel::tok::is_ws;
 use crate::runner::PropSpec;
-use crate::sources::ChunkedRead;
+use crate::sources::{ChunkedRead, ShortSink};
 use quick_xml::events::Event;
 use quick_xml::reader::Reader;
 use quick_xml::writer::Writer;
@@ -17,12 +17,12 @@ use serde_json::{json, Value};
 pub const SPEC: PropSpec = PropSpec {
     id: "C08",
     level: "exploration",
-    rule: "Cases = (input bytes, source kind) under the neutral configuration (no trimming, no expansion, end names neither trimmed nor checked, unmatched ends allowed). Inputs as in C01: all byte strings up to length N over the 13 markup bytes, all sequences of up to k markup atoms, the terminator pool, grammar documents with and without BOM, mutants, truncations at every offset, the repository corpus. For each successful read the bytes between buffer_position() before and after the call must be exactly the event's markup (an independent reconstruct(event) oracle; the first span may additionally start with the byte-order mark), the first position is 0, consecutive spans tile, the position after Eof is the input length, and Writer::write_event over all events reproduces the spans (DOCTYPE keyword spelling/spacing normalised). Non-trivial = input contains '<'.",
+    rule: "Cases = (input bytes, source kind) under the neutral configuration (no trimming, no expansion, end names neither trimmed nor checked, unmatched ends allowed). Inputs as in C01: all byte strings up to length N over the 13 markup bytes, all sequences of up to k markup atoms, the terminator pool, grammar documents with and without BOM, mutants, truncations at every offset, the repository corpus. For each successful read the bytes between buffer_position() before and after the call must be exactly the event's markup (an independent reconstruct(event) oracle; the first span may additionally start with the byte-order mark), the first position is 0, consecutive spans tile, the position after Eof is the input length, and Writer::write_event over all events, into a sink that accepts 1, 2, 3 or any number of bytes per write call, reproduces the spans (DOCTYPE keyword spelling/spacing normalised). Non-trivial = input contains '<'.",
     assumptions: &[
         "positions are literal offsets into the input (the crate documents spans as indices into the input: read_text / read_to_end / into_inner examples)",
         "checks stop at the first Err returned by the reader",
     ],
-    required: &["spans.Start", "spans.End", "spans.Empty", "spans.Text", "spans.CData", "spans.Comment", "spans.Decl", "spans.PI", "spans.DocType", "inputs_with_bom", "doctype_spellings_nonstandard", "written_bytes_compared", "buffered_runs"],
+    required: &["spans.Start", "spans.End", "spans.Empty", "spans.Text", "spans.CData", "spans.Comment", "spans.Decl", "spans.PI", "spans.DocType", "inputs_with_bom", "doctype_spellings_nonstandard", "written_bytes_compared", "writer_short_write_calls", "buffered_runs"],
     run,
     replay,
     thorough_layers: &[("fuzz", 45)],
@@ -36,6 +36,7 @@ pub struct Local {
     bom_inputs: u64,
     doctype_odd: u64,
     written: u64,
+    short_writes: u64,
     buffered: u64,
     stopped_at_err: u64,
 }
@@ -114,7 +115,7 @@ struct Tiler<'a> {
     prev: u64,
     first: bool,
     expected_out: Vec<u8>,
-    writer: Writer<Vec<u8>>,
+    writer: Writer<ShortSink>,
 }
 
 impl<'a> Tiler<'a> {
@@ -124,7 +125,11 @@ impl<'a> Tiler<'a> {
             prev: 0,
             first: true,
             expected_out: Vec::new(),
-            writer: Writer::new(Vec::new()),
+            // the sink takes 1, 2, 3 or any number of bytes per write call, chosen by the input
+            writer: Writer::new(ShortSink::new(match input.iter().fold(input.len(), |a, b| a.wrapping_mul(31).wrapping_add(*b as usize)) % 4 {
+                0 => usize::MAX,
+                k => k,
+            })),
         }
     }
     /// returns Ok(true) to continue, Ok(false) when finished
@@ -210,7 +215,9 @@ impl<'a> Tiler<'a> {
         }
     }
     fn finish(&mut self, loc: &mut Local) -> Result<(), String> {
-        let out = self.writer.get_ref();
+        let sink = self.writer.get_ref();
+        loc.short_writes += sink.short;
+        let out = &sink.out;
         loc.written += out.len() as u64;
         if out != &self.expected_out {
             return Err(format!(
@@ -301,6 +308,7 @@ fn run(ctx: &mut Ctx) {
         bom_inputs: 0,
         doctype_odd: 0,
         written: 0,
+        short_writes: 0,
         buffered: 0,
         stopped_at_err: 0,
     };
@@ -352,6 +360,7 @@ fn run(ctx: &mut Ctx) {
     ctx.add("inputs_with_bom", loc.bom_inputs);
     ctx.add("doctype_spellings_nonstandard", loc.doctype_odd);
     ctx.add("written_bytes_compared", loc.written);
+    ctx.add("writer_short_write_calls", loc.short_writes);
     ctx.add("buffered_runs", loc.buffered);
     ctx.add("runs_stopped_at_first_error", loc.stopped_at_err);
 }
@@ -367,6 +376,7 @@ fn replay(case: &Value, _ctx: &mut Ctx) -> Option<String> {
         bom_inputs: 0,
         doctype_odd: 0,
         written: 0,
+        short_writes: 0,
         buffered: 0,
         stopped_at_err: 0,
     };
@@ -381,7 +391,7 @@ fn replay(case: &Value, _ctx: &mut Ctx) -> Option<String> {
 
 /// libFuzzer entry: the whole input is the document (neutral configuration); byte parity picks the source
 pub fn fuzz_entry(data: &[u8]) -> Result<(), String> {
-    let mut loc = Local { spans: [0; 10], zero_spans: 0, bom_inputs: 0, doctype_odd: 0, written: 0, buffered: 0, stopped_at_err: 0 };
+    let mut loc = Local { spans: [0; 10], zero_spans: 0, bom_inputs: 0, doctype_odd: 0, written: 0, short_writes: 0, buffered: 0, stopped_at_err: 0 };
     check_slice(data, &mut loc)?;
     if data.len() > 1 && !matches!(data[0], 0xEF | 0xFE | 0xFF | 0) {
         check_buffered(data, crate::sources::cuts_for_piece(data.len(), 1 + (data.len() % 3), 0), &mut loc)?;
